@@ -285,8 +285,13 @@ def finish(ctx, level, rule, confirm=None, exhaustive=False):
     """Apply soundness policy and write evidence. confirm(rec) -> bool re-runs the single case."""
     known = [k for k in load_known() if k["property"] == ctx.prop and k.get("status", "open") == "open"]
     viol, kf = [], {}
+    def input_matches(k, rec):
+        # findings identified by the exact failing input: k["inputs"] is a list of {field: value} that must all equal the fields of the
+        # failing case, k["clauses"] the clauses that input is known to fail; anything else on that input is still a violation
+        case = rec.get("case") or {}
+        return rec["clause"] in k.get("clauses", ()) and any(all(case.get(f) == v for f, v in inp.items()) for inp in k.get("inputs", ()))
     for rec in ctx.fails:
-        k = next((k for k in known if k["class"] == rec["clause"]), None)
+        k = next((k for k in known if k["class"] == rec["clause"]), None) or next((k for k in known if "inputs" in k and input_matches(k, rec)), None)
         if k:
             kf.setdefault(k["class"], []).append(rec); continue
         viol.append(rec)
@@ -297,7 +302,7 @@ def finish(ctx, level, rule, confirm=None, exhaustive=False):
         if key in seen:
             continue
         seen.add(key)
-        if len(confirmed) >= 5:
+        if len(confirmed) >= int(os.environ.get("VERIF_MAXVIOL", "5")):
             break
         if confirm is None or confirm(rec):
             confirmed.append(rec)
